@@ -15,13 +15,17 @@ def valOf (j : Json) : Val :=
       | _ =>
         match j.getObjVal? "t" with
         | .ok (.str s) => .tok s
-        | _ => .obj (getStr j "o")
+        | _ =>
+          match j.getObjVal? "d" with
+          | .ok (.str s) => .data s
+          | _ => .obj (getStr j "o")
 
 def valJ : Val → Json
   | .none => Json.null
   | .str s => Json.mkObj [("s", Json.str s)]
   | .int i => Json.mkObj [("i", toJson i)]
   | .tok s => Json.mkObj [("t", Json.str s)]
+  | .data s => Json.mkObj [("d", Json.str s)]
   | .obj s => Json.mkObj [("o", Json.str s)]
 
 def optNatJ : Option Nat → Json
@@ -46,7 +50,8 @@ def nodeOf (j : Json) : String × SNode :=
     | [p, par, .null] => (asStr p, InRef.dflt (asStr par))
     | [p, par, o] => (asStr p, InRef.named (asStr par) (asStr o))
     | _ => ("", InRef.dflt ""))
-  (getStr j "name", { payload := payload, inputs := inputs, outputs := (getArr j "outputs").map asStr })
+  (getStr j "name", { payload := payload, inputs := inputs, outputs := (getArr j "outputs").map asStr,
+                      payloadAbsent := getBool j "payload_absent" })
 
 def edgeJ (e : Edge) : Json :=
   Json.arr #[Json.str e.source.task, Json.str e.source.output, Json.str e.sink, optNatJ e.ps, optStr e.kw]
@@ -80,13 +85,15 @@ def errJ : Err → String
   | .moreResults => "more-results"
   | .notIterator => "not-iterator"
   | .unpicklable => "unpicklable"
+  | .corrupted => "corrupted"
 
 def resultOf (j : Json) : Result :=
   let vals := (getArr j "vals").map valOf
   match getStr j "kind" with
   | "value" => .value (vals.headD .none)
   | "gen" => .gen vals
-  | "lst" => .lst vals
+  | "genraise" => .genRaise vals
+  | "lst" => .lst (valOf ((j.getObjVal? "self").toOption.getD Json.null)) vals
   | _ => .raises
 
 def memOf (l : List Json) : Ds → Option Val :=
@@ -95,6 +102,44 @@ def memOf (l : List Json) : Ds → Option Val :=
     | [t, o, v] => (⟨asStr t, asStr o⟩, valOf v)
     | _ => (⟨"", ""⟩, .none))
   fun ds => tbl.lookup ds
+
+def assocOf (l : List Json) : List (Ds × Val) :=
+  l.map (fun e =>
+    match asArr e with
+    | [t, o, v] => (⟨asStr t, asStr o⟩, valOf v)
+    | _ => (⟨"", ""⟩, .none))
+
+def dsOf (j : Json) : Ds :=
+  match asArr j with
+  | [t, o] => ⟨asStr t, asStr o⟩
+  | _ => ⟨"", ""⟩
+
+def dsKey (d : Ds) : String := d.task ++ "\u0000" ++ d.output
+
+/-- a dict given as association list with the most recent assignment first: first occurrence per key, sorted by key -/
+def canonAssoc (l : List (Ds × Val)) : Json :=
+  let dd := l.foldl (fun acc e => if acc.any (fun x => x.1 = e.1) then acc else acc ++ [e]) ([] : List (Ds × Val))
+  let srt := dd.toArray.qsort (fun a b => dsKey a.1 < dsKey b.1)
+  Json.arr (srt.map (fun e => Json.arr #[Json.str e.1.task, Json.str e.1.output, valJ e.2]))
+
+def canonKeys (l : List Ds) : Json :=
+  let dd := l.foldl (fun acc e => if acc.contains e then acc else acc ++ [e]) ([] : List Ds)
+  let srt := dd.toArray.qsort (fun a b => dsKey a < dsKey b)
+  Json.arr (srt.map (fun e => Json.arr #[Json.str e.task, Json.str e.output]))
+
+def taskOf (j : Json) : Task :=
+  { staticPs := (getArr j "ps").map (fun p => match asArr p with | [i, v] => (asNat i, valOf v) | _ => (0, .none)),
+    staticKw := kwOf (getArr j "kw"), inputSchema := [], outputSchema := (getArr j "outs").map asStr }
+
+def recvJ : Option (List Val × List (String × Val)) → Json
+  | none => Json.null
+  | some (a, k) => Json.mkObj [("args", Json.arr (a.map valJ).toArray), ("kwargs", kwJ k)]
+
+def runOutJ (r : RunOut) : Json :=
+  Json.mkObj [("received", recvJ r.received),
+    ("handled", Json.arr (r.handled.map (fun h => Json.arr #[Json.str h.output, valJ h.value, Json.bool h.publish])).toArray),
+    ("error", match r.err with | none => Json.null | some e => Json.str (errJ e)),
+    ("published", strs (published (r.handled, r.err)))]
 
 def boolOptJ : Option Bool → Json
   | none => Json.str "error:IndexError"
@@ -126,6 +171,28 @@ def c10Step (_ : Unit) (j : Json) : Unit × Json :=
     ((), Json.mkObj [("received", recv), ("handled", handled),
                      ("error", match r.err with | none => Json.null | some e => Json.str (errJ e)),
                      ("completion", completion)])
+  | "seq" =>
+    let m : Mem := { loc := assocOf (getArr j "loc"), bufs := (getArr j "bufs").map dsOf, shm := assocOf (getArr j "shm") }
+    let publish := (getArr j "publish").map dsOf
+    let tasks := (getArr j "tasks").map (fun tj =>
+      (getStr tj "tid", taskOf tj, resultOf ((tj.getObjVal? "result").toOption.getD Json.null)))
+    let r := execSeq ((getArr j "edges").map edgeOf) (fun ds => publish.contains ds) m tasks
+    ((), Json.mkObj [
+      ("runs", Json.arr (r.2.runs.map (fun x => Json.mkObj [("tid", Json.str x.1), ("out", runOutJ x.2)])).toArray),
+      ("failed", match r.2.failed with | none => Json.null | some (t, e) => Json.arr #[Json.str t, Json.str (errJ e)]),
+      ("loc", canonAssoc r.1.loc), ("bufs", canonKeys r.1.bufs), ("shm", canonAssoc r.1.shm)])
+  | "memop" =>
+    -- one operation of the worker's loop between task sequences: DatasetPublished for an awaited dataset (`provide`),
+    -- DatasetPurge (`pop`), or somebody else's publication into the host's shared memory
+    let m : Mem := { loc := assocOf (getArr j "loc"), bufs := (getArr j "bufs").map dsOf, shm := assocOf (getArr j "shm") }
+    let ds := dsOf ((j.getObjVal? "ds").toOption.getD Json.null)
+    let (m', res) : Mem × Json := match getStr j "kind" with
+      | "pop" => (m.pop ds, Json.null)
+      | "provide" => (match m.provide ds with
+        | .ok (m1, v) => (m1, valJ v)
+        | .error e => (m, Json.str ("error:" ++ errJ e)))
+      | _ => (m, Json.null)
+    ((), Json.mkObj [("result", res), ("loc", canonAssoc m'.loc), ("bufs", canonKeys m'.bufs), ("shm", canonAssoc m'.shm)])
   | "is_last" =>
     let outs := (getArr j "outs").map asStr
     ((), Json.mkObj [("is_last", Json.arr (outs.map (fun o => Json.arr #[Json.str o, boolOptJ (isLastOutputOf outs o)])).toArray)])
